@@ -132,6 +132,9 @@ func (z *zone) tree() []name {
 }
 
 func tweak(r *vlib.R, l string) string {
+	if len(l) >= 63 {
+		l = l[:62]
+	}
 	b := []byte(l)
 	switch r.Intn(6) {
 	case 0:
@@ -155,7 +158,16 @@ func tweak(r *vlib.R, l string) string {
 	return "!" + l
 }
 
+// genQuery: a query name around the zone, never longer than the wire limit.
 func genQuery(r *vlib.R, z *zone) name {
+	q := genQuery0(r, z)
+	for len(q.wire()) > 255 {
+		q = q[1:]
+	}
+	return q
+}
+
+func genQuery0(r *vlib.R, z *zone) name {
 	tr := z.tree()
 	p := vlib.Pick(r, tr)
 	switch k := r.Intn(100); {
@@ -430,9 +442,28 @@ func gen(r *vlib.R, n int, tier string, emit func(string)) {
 // witnessOps: the minimal shapes of the candidate findings, always run first.
 func witnessOps() []string {
 	return []string{
+		// RFC 6840 4.1: ancestor delegation NSEC used to deny a name below the cut
 		"z new example 1 example:2,6,46,47,48;sub.example:2,46,47;zzz.example:1,46,47",
 		"z set sub.example|zzz.example|1|2,46,47",
 		"z nxd example a.sub.example 1",
 		"z agg example a.sub.example 1 1",
+		// ... and used to deny data AT the delegation point
+		"z nod example sub.example 1",
+		"z agg example sub.example 1 1",
+		// DNAME owner's NSEC used to deny a name below the DNAME
+		"z new example 1 example:2,6,46,47,48;d.example:39,46,47;zzz.example:1,46,47",
+		"z set d.example|zzz.example|1|39,46,47",
+		"z nxd example a.d.example 1",
+		"z agg example a.d.example 1 1",
+		// empty non-terminal denied
+		"z new example 1 example:2,6,46,47,48;a.b.example:1,46,47",
+		"z set example|a.b.example|1|2,6,46,47,48",
+		"z nxd example b.example 1",
+		"z agg example b.example 1 1",
+		// NSEC3: delegation point's record used to deny data at the delegation point
+		"h new example 1 example:2,6,46,48,51;sub.example:2,46;zzz.example:1,46 - 0 -",
+		"h set H0e19edc62ea5a129ac22c11f50edeb0c5c328128|example|H1db8efa7dcb348bda7893fca1d8badfdb6996b01|20|1|0|0|-|1|2,46",
+		"h nod example sub.example 1 1 example=1db8efa7dcb348bda7893fca1d8badfdb6996b01,*.example=4a66a8e74e719e25f8173c8accf2c6caf86ee405,sub.example=0e19edc62ea5a129ac22c11f50edeb0c5c328128,*.sub.example=bcb7f57f33713495d57c61626040aa9bd8cd2d63",
+		"h agg example sub.example 1 1 example=1db8efa7dcb348bda7893fca1d8badfdb6996b01,*.example=4a66a8e74e719e25f8173c8accf2c6caf86ee405,sub.example=0e19edc62ea5a129ac22c11f50edeb0c5c328128,*.sub.example=bcb7f57f33713495d57c61626040aa9bd8cd2d63",
 	}
 }
